@@ -39,6 +39,52 @@ func (fv *FuncVerifier) evalCall(st *State, e *ast.CallExpr) []Val {
 	if e.Pos().IsValid() {
 		fv.curPos = e.Pos()
 	}
+	// interior-pointer aliases passed to a callee (as receiver or argument): the callee may rewrite the
+	// location they name, so that part of the enclosing object is arbitrary afterwards
+	if len(fv.aliases) > 0 {
+		var escaped []ast.Expr
+		if sel, ok := unparen(e.Fun).(*ast.SelectorExpr); ok {
+			if tgt := fv.aliasTarget(sel.X); tgt != nil {
+				escaped = append(escaped, tgt)
+			}
+		}
+		for _, a := range e.Args {
+			if tgt := fv.aliasTarget(a); tgt != nil {
+				escaped = append(escaped, tgt)
+			}
+		}
+		if len(escaped) > 0 {
+			// copy-in / copy-out: the callee works on the pointee cell at the alias's abstract address
+			type esc struct {
+				tgt  ast.Expr
+				addr string
+				heap string
+				ty   types.Type
+			}
+			var es []esc
+			for _, tgt := range escaped {
+				t := fv.typeOf(tgt)
+				if t == nil {
+					continue
+				}
+				addr := fv.evalAddr(st, tgt, types.NewPointer(t))
+				h := fv.eng.sc.ptrHeap(t)
+				cur := fv.eval(st, tgt)
+				st.heaps[h] = "(store " + fv.heapOf(st, h) + " " + addr.T + " " + cur.T + ")"
+				es = append(es, esc{tgt, addr.T, h, t})
+			}
+			defer func() {
+				if st.dead {
+					return
+				}
+				for _, x := range es {
+					v := "(select " + fv.heapOf(st, x.heap) + " " + x.addr + ")"
+					fv.assumeInv(st, v, x.ty)
+					fv.assign(st, x.tgt, Val{T: v, Ty: x.ty})
+				}
+			}()
+		}
+	}
 	// call-site key for "after <callee>#k assert ..." directives
 	if len(fv.contract.Asserts) > 0 || len(fv.contract.Befores) > 0 {
 		name := ""
